@@ -253,6 +253,19 @@ func (u *Unit) run() {
 			after = nx
 		}
 		for _, a := range after {
+			if !a.panicking && a.ctl == "" {
+				// a deferred call recovered: the function returns normally with its named results
+				a.rets = nil
+				for _, rv := range u.resultVars {
+					if rv != nil {
+						a.rets = append(a.rets, a.vars[rv])
+					}
+				}
+				a.trace = append(a.trace, "panic recovered: normal return with the named results")
+				u.nRecovered++
+				u.checkExit(a, 900+u.nRecovered)
+				continue
+			}
 			penv := &SpecEnv{names: u.entryParams, oldNames: u.entryParams, old: a.old, pkg: u.pkg, what: u.name + " onpanic"}
 			for _, c := range u.ct.OnPanic {
 				g, q := u.evalSpecBool(a, c.E, penv, false)
